@@ -58,7 +58,7 @@ func (c *TraitOf[V]) PrepareRead(ctx context.Context, cacheEntry *TraitEntryOf[V
 			c.Stat.Add(ctx, MetricExpired, 1, "name", c.Config.Name)
 		}
 
-		return v, errExpiredOf[V]{entry: cacheEntry}
+		return v, errExpiredOf[V]{entry: cacheEntry, expiredAt: e}
 	}
 
 	if c.Stat != nil {
@@ -119,7 +119,8 @@ func (e TraitEntryOf[V]) ExpireAt() time.Time {
 var _ ErrWithExpiredItemOf[any] = errExpiredOf[any]{}
 
 type errExpiredOf[V any] struct {
-	entry *TraitEntryOf[V]
+	entry     *TraitEntryOf[V]
+	expiredAt int64 // Expiration as seen by the read, entry may be updated by concurrent ExpireAll.
 }
 
 func (e errExpiredOf[V]) Error() string {
@@ -131,7 +132,7 @@ func (e errExpiredOf[V]) Value() V {
 }
 
 func (e errExpiredOf[V]) ExpiredAt() time.Time {
-	return tsTime(atomic.LoadInt64(&e.entry.E))
+	return tsTime(e.expiredAt)
 }
 
 func (e errExpiredOf[V]) Is(err error) bool {
